@@ -198,29 +198,39 @@ def steps_stage(ctx, res, selftests=True):
         return
     # binding self-test of the step validator: one more layer / one leaked storage slot must be noticed
     runs = [i for i, e in enumerate(steps) if e["event"] == "begin"]
-    seg = None
+    segs = []
     for a, b in zip(runs, runs[1:] + [len(steps)]):
         idx = [i for i in range(a + 1, b) if steps[i]["event"] == "step" and steps[i]["obs"]["depth"] >= 2]
         if len(idx) >= 2 and not any(f["line"] - 1 in range(a, b) for f in fails):
-            seg = (a, b, idx[-1])
+            segs.append((a, b, idx[-1]))
+            segs.append((a, b, idx[0]))
+        if len(segs) >= 12:
             break
-    if seg is None:
+    if not segs:
         raise vlib.Inconclusive("step self-test: no suitable run")
-    a, b, i = seg
+    # a corruption is noticed where the validator compares that observation (not in runs it leaves as corner cases, not
+    # behind a pending exception): candidates are tried until one is rejected; none rejected = the validator is vacuous
     for name, expect in (("layers", "LayerDiscipline"), ("vis", "VisibleState")):
-        bad = json.loads(json.dumps(steps[a:b]))
-        o = bad[i - a]["obs"]
-        if name == "layers":
-            o["layers"] += 1
-        else:
-            o["vis"][0][1] += 1
-        p = os.path.join(ctx.work, "selftest-steps-%s.ndjson" % name)
-        vlib.write_ndjson(p, bad)
-        st, tr = ctx.states, ctx.transitions
-        fs = ctx.trace_judge("exec", "ExecSteps.tla", "Trace_Steps.cfg", p, timeout=600)
-        ctx.states, ctx.transitions = st, tr
-        if not any(expect in f["what"] for f in fs):
-            raise vlib.Inconclusive("step self-test %s: corrupted trace was not rejected (%s expected)" % (name, expect))
+        ok = False
+        for a, b, i in segs:
+            bad = json.loads(json.dumps(steps[a:b]))
+            o = bad[i - a]["obs"]
+            if name == "layers":
+                o["layers"] += 1
+            else:
+                if not o.get("vis") or not o["vis"][0]:
+                    continue
+                o["vis"][0][1] += 1
+            p = os.path.join(ctx.work, "selftest-steps-%s.ndjson" % name)
+            vlib.write_ndjson(p, bad)
+            st, tr = ctx.states, ctx.transitions
+            fs = ctx.trace_judge("exec", "ExecSteps.tla", "Trace_Steps.cfg", p, timeout=600)
+            ctx.states, ctx.transitions = st, tr
+            if any(expect in f["what"] for f in fs):
+                ok = True
+                break
+        if not ok:
+            raise vlib.Inconclusive("step self-test %s: no corrupted trace was rejected (%s expected; %d candidates)" % (name, expect, len(segs)))
         ctx.extra["binding_selftests"] = ctx.extra.get("binding_selftests", 0) + 1
 
 
